@@ -124,9 +124,19 @@ def proposal_store(repo, run):
                 stores.append(st)
     fs = m.final_step()
     flag = fs["flag"] if fs and fs.get("flag_ok") else None
-    if flag is None:
-        raise AnalysisError("anchor missing: the final-step flag of integrate")
     prop = [st for st in stores if isinstance(st, ast.Assign) and isinstance(st.value, ast.Name) and st.value.id == m.new_dt]
+    if flag is None:
+        # no flag records whether the step was the clamped one: decidable only when the proposal is stored unconditionally (then it is also stored
+        # after a clamped last step, whenever the clamp exists)
+        from ..sym import path_condition, tree_atoms
+        uncond = [p_ for p_ in prop if not tree_atoms(path_condition(p_, m.loop)[0])]
+        if uncond and fs and fs.get("clamp") is not None:
+            run.judged(rid, "proposal store `%s` is unconditional although the last step is clamped" % src(uncond[0]), ok=False)
+            run.report("C04.4", DS, uncond[0], "the integrator's proposal is stored into dt on every iteration, also after the last step was clamped to `tf - t`: for a fixed-step "
+                                               "method the proposal IS the clamped remainder, so the next integrate() call takes steps of that remainder instead of the requested dt",
+                       text="proposal store unconditional")
+            return
+        raise AnalysisError("anchor missing: the final-step flag of integrate")
     ok = len(prop) == 1
     if ok:
         from ..sym import path_condition, equivalent
